@@ -71,3 +71,6 @@ PROPS["C19"] = {
 # C14's Message.UnmarshalText route (incl. "the value must not alias the caller's buffer") is exercised by the message family
 PROPS["C14"]["families"] = ["fields", "message"]
 PROPS["C14"]["rule"] += "; plus the message family (UnmarshalText of arbitrary wire-like text into a Message whose input buffer is then overwritten)"
+PROPS["C14"]["rule"] += ("; UnmarshalJSON is called on the method directly, also with every text put between two quotes as it is (a string "
+                         "literal with RAW control characters, line breaks, quotes, backslashes inside - not a document for encoding/json, "
+                         "whose verdict on it is the model's `decoded` input)")
